@@ -304,6 +304,28 @@ func (m *ledgerMon) check(h uint32, b *BlockSpec, prevDump, dump []string, prevW
 			break
 		}
 	}
+	// … and nothing else on the mint address moves at those two heights: assets outside the mint
+	// table change only by what is transferred in
+	if h == a.V204 || h == a.V204Burn {
+		minted := map[int]bool{}
+		for _, ms := range node.MintTotalSupplyMap {
+			minted[int(ms.Ticker)] = true
+		}
+		in := L.TransfersInto(int64(h), m.mintHex)
+		for t := 1; t < int(fat2.PTickerMax); t++ {
+			if minted[t] {
+				continue
+			}
+			d := mintDelta(t)
+			if in[t] != nil {
+				d.Sub(d, in[t])
+			}
+			if d.Sign() != 0 {
+				m.violate("issuance:mint-unlisted-asset", fmt.Sprintf("mint address %s (not in the mint table) changed by %v at height %d", fat2.PTicker(t).String(), d, h), h)
+				break
+			}
+		}
+	}
 	if h == a.DevRewards {
 		in := L.TransfersInto(int64(h), m.oldBurnHex) // received after the zeroing, in this very block
 		for t, v := range L.Bal[m.oldBurnHex] {
@@ -920,6 +942,22 @@ func runLedgerChainWith(rep *Report, seed int64, variant int, tier string, acts 
 				} else if bal := w.Balance(u.FA(), fat2.PTickerFCT); bal > 1e6 && h+4 <= s.Acts.V202 {
 					b.TX = append(b.TX, g.Batch(h, u, []fat2.Transaction{Conversion(u.FA(), fat2.PTickerFCT, bal/40, lastT)}))
 					rep.Count("ledger:conversion-into-last-asset")
+				}
+				break
+			}
+		}
+		// the mint address receives some of an asset that is NOT in the mint table shortly before
+		// the burn of the minted supply (which must leave it alone)
+		if h+6 >= s.Acts.V204Burn && h < s.Acts.V204Burn && h > s.Acts.TxConv+3 {
+			for _, u := range g.Users {
+				if u.IsE && h < s.Acts.RCDE {
+					continue
+				}
+				if bal := w.Balance(u.FA(), fat2.PTickerEUR); bal > 10 {
+					b.TX = append(b.TX, g.Batch(h, u, []fat2.Transaction{Transfer(u.FA(), fat2.PTickerEUR, fat2.AddressAmountTuple{Address: mintA, Amount: bal / 5})}))
+					rep.Count("ledger:unminted-asset-to-mint-address")
+				} else if bal := w.Balance(u.FA(), fat2.PTickerFCT); bal > 1e6 && h+3 <= s.Acts.V204Burn {
+					b.TX = append(b.TX, g.Batch(h, u, []fat2.Transaction{Conversion(u.FA(), fat2.PTickerFCT, bal/40, fat2.PTickerEUR)}))
 				}
 				break
 			}
